@@ -240,7 +240,7 @@ def search(tier, rng):
         yield 'p_stack %d %s' % (rng.randrange(2), g)
 
 
-LEVEL_TEXT = ('Proof: 21 Coq theorems over the Gallina model of the draw-target layer (coq/Model/Target.v: trait defaults unfolded '
+LEVEL_TEXT = ('Proof: 23 Coq theorems over the Gallina model of the draw-target layer (coq/Model/Target.v: trait defaults unfolded '
               'literally, the Cropped colour iterator as its next() state machine, the four adapters line by line). Proved for ALL '
               'inputs in range: default fill_contiguous/fill_solid/clear = row-major points paired with the stream (full, short, '
               'endless); the Cropped iterator yields exactly the colours at the row-major indices of crop /\\ area (initial skip, row '
